@@ -55,7 +55,9 @@ def run(prog, rep):
     smp = Relabel(rep, "C06.sampler")
     rep.part(c07.chain, prog, smp)
     rep.part(c07.size, prog, smp)
-    rep.expect_min("C06.sampler", 6)
+    # ... and the variables of one sample come from ONE generator: with a plain integer handed to every rvs each variable restarts the same stream
+    rep.part(c07.rng, prog, Relabel(rep, "C06.sampler", lambda r, inst: r == "C07.rng" and ("GlobalHierarchicalModel.draw_sample" in inst or "marginal_icdf" in inst)))
+    rep.expect_min("C06.sampler", 7)
     rep.explanation += (" C06.sampler: marginal_icdf of a conditional variable is a quantile of model.draw_sample - the rows of C07 for the joint sampler "
                         "(each conditional column drawn given column conditional_on[i] of the same rows; vector parameters give one draw per value).")
 
